@@ -147,7 +147,15 @@ def mimebundle(draw):
         d["application/javascript"] = draw(text(2))
     if not d:
         d["text/plain"] = draw(st.sampled_from(REPRS))
+    if draw(st.sampled_from(range(6))) == 0:
+        # mime types are case-insensitive; the differ lower-cases them for dispatch
+        k = draw(st.sampled_from(sorted(d)))
+        d[MIXED_CASE.get(k, k.upper())] = d.pop(k)
     return d
+
+
+MIXED_CASE = {"text/plain": "text/Plain", "text/html": "text/HTML", "image/png": "image/PNG", "application/json": "Application/JSON",
+              "image/svg+xml": "image/SVG+xml"}
 
 
 @st.composite
@@ -168,7 +176,9 @@ def output(draw):
 @st.composite
 def attachments(draw):
     return draw(st.dictionaries(st.sampled_from(["a.png", "b.png", "LOCAL_a.png"]),
-                                st.fixed_dictionaries({"image/png": st.sampled_from(B64S[:3])}), max_size=2))
+                                st.one_of(st.fixed_dictionaries({"image/png": st.sampled_from(B64S[:3])}),
+                                          st.fixed_dictionaries({"image/png": st.sampled_from(B64S[:3])}),
+                                          st.fixed_dictionaries({"image/PNG": st.sampled_from(B64S[:3])})), max_size=2))
 
 
 @st.composite
@@ -385,7 +395,8 @@ def edit_cell(draw, c, minor, kinds=None):
                 else:
                     a = c["attachments"]
                     k = draw(st.sampled_from(["a.png", "b.png", "c.png"]))
-                    a[k] = {"image/png": draw(st.sampled_from(B64S[:3]))}
+                    mk = sorted(a[k])[0] if k in a and a[k] else "image/png"
+                    a[k] = {mk: draw(st.sampled_from(B64S[:3]))}
         elif w == "type":
             newt = draw(st.sampled_from(["code", "markdown", "raw"]))
             if newt != c["cell_type"]:
@@ -420,6 +431,7 @@ def set_minor(nb, minor, tag="m"):
 
 
 NB_OPS = ["edit", "edit", "edit", "edit", "ins", "del", "move", "dup", "meta", "minor"]
+NB_OPS_DUPID = NB_OPS + ["dup_same_id"]
 
 
 @st.composite
@@ -453,10 +465,10 @@ def edit_notebook(draw, nb, tag, max_steps=4, ops=None, min_steps=0):
         elif op == "move":
             c = cells.pop(draw(st.integers(0, len(cells) - 1)))
             cells.insert(draw(st.integers(0, len(cells))), c)
-        elif op == "dup":
+        elif op in ("dup", "dup_same_id"):
             i = draw(st.integers(0, len(cells) - 1))
             c = copy.deepcopy(cells[i])
-            if "id" in c:
+            if "id" in c and op == "dup":
                 c["id"] = _fresh_id(used, tag + "d")
             cells.insert(draw(st.integers(0, len(cells))), c)
     return nb
@@ -466,12 +478,12 @@ _ONE_IN_TEN = [True] + [False] * 9
 
 
 @st.composite
-def pair(draw, max_cells=5):
-    """(A, B, relation)."""
+def pair(draw, max_cells=5, dup_ids=False):
+    """(A, B, relation). dup_ids: allow 'duplicate cell keeping its id' (schema-valid; nbformat would re-id it on read)."""
     a = draw(notebook(max_cells=max_cells))
     if draw(st.sampled_from(_ONE_IN_TEN)):
         return a, draw(notebook(max_cells=max_cells)), "unrelated"
-    return a, draw(edit_notebook(a, "B", max_steps=5, min_steps=1)), "edited"
+    return a, draw(edit_notebook(a, "B", max_steps=5, min_steps=1, ops=NB_OPS_DUPID if dup_ids else None)), "edited"
 
 
 # ----------------------------------------------------------------------------- triples
@@ -586,7 +598,12 @@ def _validator(minor):
     return _validators[minor]
 
 
-def schema_errors(nb, limit=3):
+def has_duplicate_ids(nb):
+    ids = [c.get("id") for c in nb.get("cells", []) if isinstance(c, dict) and "id" in c]
+    return len(set(map(str, ids))) != len(ids)
+
+
+def schema_errors(nb, limit=3, unique_ids=True):
     """jsonschema errors of nb against the schema of the minor it declares (on a deep copy; never mutates)."""
     nb = json.loads(json.dumps(nb))
     if nb.get("nbformat") != 4:
@@ -604,7 +621,6 @@ def schema_errors(nb, limit=3):
         errs.append("%s at /%s" % (best.message[:90], "/".join(str(p) for p in best.absolute_path)))
         if len(errs) >= limit:
             break
-    ids = [c.get("id") for c in nb.get("cells", []) if isinstance(c, dict) and "id" in c]
-    if len(set(map(str, ids))) != len(ids):
+    if unique_ids and has_duplicate_ids(nb):
         errs.append("duplicate cell ids")
     return errs
